@@ -57,9 +57,14 @@ def handleAll (ws : List String) : Option String :=
     some (match decodeHeader b with | some h => showHeader h | none => "error")
   | "plyg" :: rest => do
     let (b, t) ← run pFile rest
-    some (match plyReadAll t.floatText b with
+    some (match plyOpen b with
       | .error _ => "openerr"
-      | .ok (h, r) => showHeader h ++ " | " ++ showReadAll r)
+      | .ok (h, rest) =>
+        -- a binary element without properties and a huge count: see harness/cmd/c16/decode.go
+        if h.format ≠ .text && h.elements.any (fun e => e.props.isEmpty && decide (e.count > 4096)) then
+          "unbounded-empty-rows"
+        else
+          showHeader h ++ " | " ++ showReadAll (readElems t.floatText h.format 0 h.elements rest))
   | "plyc" :: rest => do
     let (b, t) ← run pFile rest
     some (match readColorPLY t.floatText b with
